@@ -83,7 +83,8 @@ pub struct Raw {
 const MACRO_NAMES: [&str; 10] = ["m", "mm", "m1", "ma", "mac_", "_m", "M", "m_a", "am", "a_m"];
 // x1, x2, b1, b10, xA, XF: names that are the tail of a hex / binary literal (0x1, 0b10, 0XF): a literal in the body is one word, not a use of the parameter
 // ptr ... dup: plausible parameter names that are keywords in other assemblers (and may become keywords here)
-const PARAM_NAMES: [&str; 42] = ["a", "ab", "a1", "_a", "x", "x1", "x2", "ax1", "b", "b1", "b10", "ba", "q", "qq", "d", "ad", "dd", "mo", "v", "v_", "k", "i", "al1", "xA", "XF", "ptr", "src", "dst", "len", "cnt", "val", "tmp", "n", "lo", "hi", "near", "far", "short", "dup", "PTR", "to", "_"];
+// Ax ... Word: names that differ from a register, a mnemonic or a size keyword only in case (names are case sensitive: the body's ax / AX is not a use of Ax)
+const PARAM_NAMES: [&str; 50] = ["a", "ab", "a1", "_a", "x", "x1", "x2", "ax1", "b", "b1", "b10", "ba", "q", "qq", "d", "ad", "dd", "mo", "v", "v_", "k", "i", "al1", "xA", "XF", "ptr", "src", "dst", "len", "cnt", "val", "tmp", "n", "lo", "hi", "near", "far", "short", "dup", "PTR", "to", "Ax", "Cx", "Al", "Bx", "Mov", "Add", "Byte", "Word", "_"];
 
 struct Sel<'a> {
     b: &'a [u8],
@@ -253,15 +254,27 @@ pub fn build(raw: &Raw) -> Case13 {
     let unary = |macros: &Vec<MacroSpec>| -> Vec<String> { macros.iter().filter(|m| m.kinds.len() == 1 && m.kinds[0] == Some(Kind::Num16)).map(|m| m.name.clone()).collect() };
     for mi in 0..raw.nmacros {
         let name = MACRO_NAMES[mi].to_string();
-        let np = if mi == 0 && s.next() & 1 == 0 { 1 } else { s.pick(5) };
+        let np = if mi == 0 && s.next() & 1 == 0 {
+            1
+        } else {
+            // one macro in twelve has 11..13 parameters (two-digit positions)
+            let n = s.pick(5);
+            if mi > 0 && s.next() % 12 == 0 {
+                11 + n % 3
+            } else {
+                n
+            }
+        };
         let mut params: Vec<String> = Vec::new();
         if np == 0 {
             params.push("_".into()); // documented convention for no-parameter macros
         } else {
-            let base = s.pick(PARAM_NAMES.len() - 1);
+            // with two or more parameters '_' may be one of them (an ordinary name there)
+            let pool = if np >= 2 { PARAM_NAMES.len() } else { PARAM_NAMES.len() - 1 };
+            let base = s.pick(pool);
             for k in 0..np {
                 // neighbouring pool entries are prefixes / substrings of each other on purpose
-                params.push(PARAM_NAMES[(base + k) % (PARAM_NAMES.len() - 1)].to_string());
+                params.push(PARAM_NAMES[(base + k) % pool].to_string());
             }
         }
         let mut kinds: Vec<Option<Kind>> = vec![None; params.len()];
@@ -368,17 +381,17 @@ pub fn build(raw: &Raw) -> Case13 {
                 let hi = 1 + s.pick(n - 1);
                 let lo = s.pick(hi);
                 let callee = macros[hi].clone();
-                let args = callee.kinds.iter().enumerate().map(|(ak, kd)| if callee.params[ak] == "_" { Piece::Lit("_".into()) } else { Piece::Lit(literal_arg(kd.unwrap_or(Kind::Num16), &mut s, &[])) }).collect();
+                let args = callee.kinds.iter().enumerate().map(|(ak, kd)| if callee.params[ak] == "_" && callee.params.len() == 1 { Piece::Lit("_".into()) } else { Piece::Lit(literal_arg(kd.unwrap_or(Kind::Num16), &mut s, &[])) }).collect();
                 // make sure the later one uses the earlier one
                 let callee2 = macros[lo].clone();
-                let args2 = callee2.kinds.iter().enumerate().map(|(ak, kd)| if callee2.params[ak] == "_" { Piece::Lit("_".into()) } else { Piece::Lit(literal_arg(kd.unwrap_or(Kind::Num16), &mut s, &[])) }).collect();
+                let args2 = callee2.kinds.iter().enumerate().map(|(ak, kd)| if callee2.params[ak] == "_" && callee2.params.len() == 1 { Piece::Lit("_".into()) } else { Piece::Lit(literal_arg(kd.unwrap_or(Kind::Num16), &mut s, &[])) }).collect();
                 macros[lo].body.push(BItem::Use { target: Piece::Lit(callee.name.clone()), args });
                 macros[hi].body.push(BItem::Use { target: Piece::Lit(callee2.name.clone()), args: args2 });
             }
             2 => {
                 let me = s.pick(n);
                 let m = macros[me].clone();
-                let args = m.kinds.iter().enumerate().map(|(ak, kd)| if m.params[ak] == "_" { Piece::Lit("_".into()) } else { Piece::Lit(literal_arg(kd.unwrap_or(Kind::Num16), &mut s, &[])) }).collect();
+                let args = m.kinds.iter().enumerate().map(|(ak, kd)| if m.params[ak] == "_" && m.params.len() == 1 { Piece::Lit("_".into()) } else { Piece::Lit(literal_arg(kd.unwrap_or(Kind::Num16), &mut s, &[])) }).collect();
                 macros[me].body.push(BItem::Use { target: Piece::Lit(m.name.clone()), args });
             }
             _ => {}
